@@ -1087,7 +1087,27 @@ def rw_hoistend(fi, args, spec=None):
     return edits
 
 
+def rw_paramname(fi, args, spec=None):
+    """R-PARAMNAME: a function parameter written `_: T` is given a name (`__unusedK: T`); the verus! macro needs one."""
+    toks = fi.toks
+    it = fi.item
+    j = it.kw
+    while not is_p(toks[j], '('):
+        j += 1
+    k = match_close(toks, j)
+    edits = []
+    n = 0
+    for (a, b) in _split_args(toks, j + 1, k):
+        if is_id(toks[a], '_') and is_p(toks[a + 1], ':'):
+            edits.append((toks[a].start, toks[a].end, f'__unused{n}', 'R-PARAMNAME'))
+            n += 1
+    if not edits:
+        raise LostAnchor(f'fn {it.name}: R-PARAMNAME did not fire')
+    return edits
+
+
 REWRITES = {
+    'R-PARAMNAME': rw_paramname,
     'R-HOISTEND': rw_hoistend,
     'R-CLOSANN': rw_closann,
     'R-ITERMUT': rw_itermut,
